@@ -60,6 +60,19 @@ def table_engine(chk, quick):
     return rep
 
 
+def big_tables(chk, quick):
+    """Tables of 20..100 entries in one add call, every gap configured several times (first limit must win for any size)."""
+    cfg = vlib.write_cfg(chk.workdir / "gencb.cfg", {"MaxGap": 8, "Limits": {2, 4, 8}, "MaxEntries": 3,
+                                                      "Ns": {20, 33, 40, 64, 100}, "K": 12 if quick else 60}, invariants=["Emit"])
+    r = vlib.tlc(vlib.SPEC / "calc" / "GenCB.tla", cfg, "gencb", chk.workdir, workers=4, timeout=600)
+    vlib.tlc_must_pass(r, "GenCB")
+    chk.add_tlc("GenCB (large tables)", r)
+    args = ["replay", "constraints"]
+    rep = vlib.run_vh(args, [r.out], procs=4)
+    chk.add_report("large-tables", rep)
+    chk.classify("constraints", args, rep)
+
+
 def tracker_engine(chk, quick):
     """Tracker level (R2): random histories with fast-moving and re-appearing objects under random constraint
     tables; TLC validates every trace (no continuation beyond the limit for its epoch gap; the recorded assignment is
@@ -107,6 +120,7 @@ def tracker_engine(chk, quick):
 def run(chk):
     quick = chk.tier == "quick"
     table_engine(chk, quick)
+    big_tables(chk, quick)
     tracker_engine(chk, quick)
     chk.finish(RULE, exhaustive=True)
 
